@@ -1,8 +1,9 @@
 import RulesModel.Proofs.Render
+import RulesModel.Proofs.LexClosedP
 /-!
 # C15 for sentences: from "well-formed tree" to "any rule text the engine accepts"
 
-`C15_render` needs `wf rules t`: every name, literal and connective of the tree is a canonical token of its kind. Here that
+`C15_render` needs `wf rules cl t`: every name, literal and connective of the tree is a canonical token of its kind. Here that
 hypothesis is *derived* for every tree that comes out of lexing and parsing a rule text:
 * `lex_canon` – every token the lexer produces is canonical (it is matched whole by the first rule of the table that
   matches it: `C20_priority`), for any table;
@@ -88,10 +89,10 @@ def plainLongs : Tree → Bool
   | .compare _ _ _ => true
 
 /-- what a token of the input must satisfy for the tree built from it to be well-formed in the sense of `wf` -/
-def GoodTok (rules : List (Kind × Regex)) (x : Tok) : Prop := okTok rules x.kind x.text = true
+def GoodTok (rules : List (Kind × Regex)) (cl : List Char → Bool) (x : Tok) : Prop := okTok rules cl x.kind x.text = true
 
-theorem wfPath_of_DPath (rules : List (Kind × Regex)) {ps p} (h : DPath ps p) (hg : ∀ x ∈ ps, x.kind = ATTR → GoodTok rules x) :
-    wfPath rules p = true := by
+theorem wfPath_of_DPath (rules : List (Kind × Regex)) (cl : List Char → Bool) {ps p} (h : DPath ps p) (hg : ∀ x ∈ ps, x.kind = ATTR → GoodTok rules cl x) :
+    wfPath rules cl p = true := by
   induction h with
   | one n => simpa [wfPath, GoodTok] using hg ⟨ATTR, n⟩ (by simp) rfl
   | dot n d _ ih =>
@@ -100,8 +101,8 @@ theorem wfPath_of_DPath (rules : List (Kind × Regex)) {ps p} (h : DPath ps p) (
     simp only [wfPath, Bool.and_eq_true, Bool.not_eq_true', List.isEmpty_eq_false_iff, List.all_cons] at h2 ⊢
     exact ⟨by simp, by simpa [GoodTok] using h1, h2.2⟩
 
-theorem all_of_DList (rules : List (Kind × Regex)) {k ts xs} (h : DList k ts xs) (hg : ∀ x ∈ ts, x.kind = k → GoodTok rules x) :
-    xs ≠ [] ∧ xs.all (okTok rules k) = true := by
+theorem all_of_DList (rules : List (Kind × Regex)) (cl : List Char → Bool) {k ts xs} (h : DList k ts xs) (hg : ∀ x ∈ ts, x.kind = k → GoodTok rules cl x) :
+    xs ≠ [] ∧ xs.all (okTok rules cl k) = true := by
   induction h with
   | last t b => exact ⟨by simp, by simpa [GoodTok] using hg ⟨k, t⟩ (by simp) rfl⟩
   | cons t c _ ih =>
@@ -112,8 +113,8 @@ theorem all_of_DList (rules : List (Kind × Regex)) {k ts xs} (h : DList k ts xs
 theorem isPrimary_of_D {ts t} (h : D true ts t) : isPrimary t = true := by
   cases h <;> rfl
 
-theorem wfLit_of_DValue (rules : List (Kind × Regex)) {vs v} (h : DValue vs v) (hg : ∀ x ∈ vs, GoodTok rules x)
-    (hl : ∀ neg i e, v = .long neg i e → neg = false ∧ e = none) : wfLit rules v = true := by
+theorem wfLit_of_DValue (rules : List (Kind × Regex)) (cl : List Char → Bool) {vs v} (h : DValue vs v) (hg : ∀ x ∈ vs, GoodTok rules cl x)
+    (hl : ∀ neg i e, v = .long neg i e → neg = false ∧ e = none) : wfLit rules cl v = true := by
   cases h with
   | bool t => simpa [wfLit, GoodTok] using hg ⟨BOOLEAN, t⟩ (by simp)
   | null t => rfl
@@ -122,17 +123,17 @@ theorem wfLit_of_DValue (rules : List (Kind × Regex)) {vs v} (h : DValue vs v) 
   | double t => simpa [wfLit, GoodTok] using hg ⟨DOUBLE, t⟩ (by simp)
   | long m i e =>
     obtain ⟨h1, h2⟩ := hl _ _ _ rfl
-    have : GoodTok rules ⟨INT, i⟩ := hg ⟨INT, i⟩ (by simp)
+    have : GoodTok rules cl ⟨INT, i⟩ := hg ⟨INT, i⟩ (by simp)
     simp only [wfLit, h1, h2]
     simpa [GoodTok] using this
   | list k hk b hlst =>
-    have := all_of_DList rules hlst (fun x hx _ => hg x (by simp [hx]))
+    have := all_of_DList rules cl hlst (fun x hx _ => hg x (by simp [hx]))
     simp only [wfLit, Bool.and_eq_true, Bool.or_eq_true, beq_iff_eq, Bool.not_eq_true', List.isEmpty_eq_false_iff]
     exact ⟨⟨by rcases hk with h | h | h <;> simp [h], this.1⟩, this.2⟩
 
 /-- **every tree the grammar derives from good tokens is well-formed** -/
-theorem wf_of_D (rules : List (Kind × Regex)) : ∀ {b ts t}, D b ts t → (∀ x ∈ ts, GoodTok rules x) → plainLongs t = true →
-    wf rules t = true := by
+theorem wf_of_D (rules : List (Kind × Regex)) (cl : List Char → Bool) : ∀ {b ts t}, D b ts t → (∀ x ∈ ts, GoodTok rules cl x) → plainLongs t = true →
+    wf rules cl t = true := by
   intro b ts t h
   induction h with
   | paren n s1 s2 s3 l r _ ih =>
@@ -140,11 +141,11 @@ theorem wf_of_D (rules : List (Kind × Regex)) : ∀ {b ts t}, D b ts t → (∀
     exact ih (fun x hx => hg x (by simp [hx])) hp
   | present s pr hpth =>
     intro hg _
-    exact wfPath_of_DPath rules hpth (fun x hx _ => hg x (by simp [hx]))
+    exact wfPath_of_DPath rules cl hpth (fun x hx _ => hg x (by simp [hx]))
   | compare s1 o s2 k hk hpth hv =>
     intro hg hp
-    have h1 := wfPath_of_DPath rules hpth (fun x hx _ => hg x (by simp [hx]))
-    have h2 := wfLit_of_DValue rules hv (fun x hx => hg x (by simp [hx])) (by
+    have h1 := wfPath_of_DPath rules cl hpth (fun x hx _ => hg x (by simp [hx]))
+    have h2 := wfLit_of_DValue rules cl hv (fun x hx => hg x (by simp [hx])) (by
       intro neg i e he
       subst he
       simpa [plainLongs] using hp)
@@ -153,37 +154,47 @@ theorem wf_of_D (rules : List (Kind × Regex)) : ∀ {b ts t}, D b ts t → (∀
   | logical s1 op s2 _ hr ih1 ih2 =>
     intro hg hp
     simp only [plainLongs, Bool.and_eq_true] at hp
-    have h0 : GoodTok rules ⟨LOGOP, op⟩ := hg _ (by simp)
+    have h0 : GoodTok rules cl ⟨LOGOP, op⟩ := hg _ (by simp)
     have h1 := ih1 (fun x hx => hg x (by simp [hx])) hp.1
     have h2 := ih2 (fun x hx => hg x (by simp [hx])) hp.2
     simp only [wf, Bool.and_eq_true]
     exact ⟨⟨⟨by simpa [GoodTok] using h0, h1⟩, h2⟩, isPrimary_of_D hr⟩
 
-/-- **C15 for every sentence.** -/
+/-- `C15_render` with closedness of the string literals as a proposition about the table -/
+theorem C15_renderP (rules : List (Kind × Regex)) (htab : adjTableOK rules = true) (hsp : spellOK rules = true)
+    (hstr : ∀ x : Token, Canon rules x → x.kind = STRING → ClosedP rules x.text)
+    (t : Tree) (h : wf rules (fun _ => true) t = true) (sty : Sty) :
+    lexParse rules (text (render sty [] t)) = some t := by
+  have hd := (render_D rules (fun _ => true) sty t [] h).1
+  have hg := render_good rules (fun _ => true) hsp sty t [] h
+  exact lexParse_tokensP rules htab (render sty [] t) t hd (fun x hx => (hg x hx).1)
+    (fun x hx hk => hstr x (hg x hx).1 hk) (fun x hx => (hg x hx).2.2)
+
+/-- **C15 for every sentence.** Let `s` be any rule text the grammar accepts, `t` its tree. Then every rendering of `t` –
+every choice of the free spellings, optional blanks, newlines, comma blanks – is read back as `t`, provided the table's
+string literals are closed (a property of the table, `hstr`; proved for the regenerated table in `C15StringClosed`) and
+the integer literals of `s` carry no sign and no exponent (`plainLongs`; the signed / exponent forms are `C15_char_level3`). -/
 theorem C15_sentences (rules : List (Kind × Regex)) (htab : adjTableOK rules = true) (hsp : spellOK rules = true)
+    (hstr : ∀ x : Token, Canon rules x → x.kind = STRING → ClosedP rules x.text)
     (s : List Char) (ts : List Token) (t : Tree) (hl : lex rules s = some ts) (hpar : P.parse (ts.map toTok) = some t)
-    (hstr : ∀ x ∈ ts, x.kind = STRING → extClosed rules x.text = true) (hp : plainLongs t = true) (sty : Sty) :
+    (hp : plainLongs t = true) (sty : Sty) :
     lexParse rules (text (render sty [] t)) = some t := by
   have hd : D false (ts.map toTok) t := (P.parse_iff _ _).1 hpar
-  have hg : ∀ x ∈ ts.map toTok, GoodTok rules x := by
+  have hg : ∀ x ∈ ts.map toTok, GoodTok rules (fun _ => true) x := by
     intro x hx
     obtain ⟨tok, htok, rfl⟩ := List.mem_map.1 hx
     have hc := lex_canon rules s ts hl tok htok
     have hround : tkS tok.kind (String.ofList tok.text) = tok := by
       cases tok; simp [tkS]
-    simp only [GoodTok, okTok, toTok, hround, hc, Bool.true_and, Bool.or_eq_true, bne_iff_ne, ne_eq]
-    by_cases hk : tok.kind = STRING
-    · right
-      simpa using hstr tok htok hk
-    · left; simpa using hk
-  exact C15_render rules htab hsp t (wf_of_D rules hd hg hp) sty
+    simp [GoodTok, okTok, toTok, hround, hc]
+  exact C15_renderP rules htab hsp hstr t (wf_of_D rules (fun _ => true) hd hg hp) sty
 
 /-- … so any two renderings of a sentence's tree evaluate alike on every object -/
 theorem C15_sentences_process (rules : List (Kind × Regex)) (htab : adjTableOK rules = true) (hsp : spellOK rules = true)
+    (hstr : ∀ x : Token, Canon rules x → x.kind = STRING → ClosedP rules x.text)
     (s : List Char) (ts : List Token) (t : Tree) (hl : lex rules s = some ts) (hpar : P.parse (ts.map toTok) = some t)
-    (hstr : ∀ x ∈ ts, x.kind = STRING → extClosed rules x.text = true) (hp : plainLongs t = true) (sty sty' : Sty)
-    (lower : Bytes → Bytes) (item : List (Bytes × Value)) :
+    (hp : plainLongs t = true) (sty sty' : Sty) (lower : Bytes → Bytes) (item : List (Bytes × Value)) :
     (lexParse rules (text (render sty [] t))).map (fun tr => processTree lower tr item) =
     (lexParse rules (text (render sty' [] t))).map (fun tr => processTree lower tr item) := by
-  rw [C15_sentences rules htab hsp s ts t hl hpar hstr hp sty, C15_sentences rules htab hsp s ts t hl hpar hstr hp sty']
+  rw [C15_sentences rules htab hsp hstr s ts t hl hpar hp sty, C15_sentences rules htab hsp hstr s ts t hl hpar hp sty']
 end Rules.Render
